@@ -35,6 +35,7 @@ C04-e Remove rewrites the parent directory in all of its blocks (through writeDi
 C04-f in the extent loops of File.Read/Write an extent whose end (fileBlock+count, exclusive) equals the start block is skipped.
 C04-g in those loops the device offset of each transfer depends on a value the transfer's own count updates (shared with C10-f).
 C04-h every extent allocateExtents creates starts (fileBlock) at a value that depends on the blocks the file already has (previous.blockCount()).
+C04-j the times Chtimes sets read back: encoder and decoder give the 32-bit seconds word of the inode timestamps one signedness (shared with C19-e).
 C04-i writer/encoder/decoder agreement on where a symlink target lives: every comparison of a symlink length with the in-inode limit in Symlink, inode.toBytes and inodeFromBytes splits at 60 (shared with C05-h): a site that splits elsewhere makes Symlink accept a target that ReadLink and ReadDir then cannot read.
 Not covered: the rest of the extent mapping arithmetic in File.Read/Write, directory block packing, path walking, equality with a reference tree.`)
 }
@@ -95,6 +96,7 @@ func runC04(w *World, r *Report) {
 	c04ExtentBoundary(w, r)
 	c04ExtentFileBlock(w, r)
 	c05SymlinkLimit(w, r, "C04-i")
+	c19Ext4TimeSign(w, r, "C04-j")
 	r.Floor("C04-i", r.countRule("C04-i"), 4)
 	r.Floor("C04-h", r.countRule("C04-h"), 2)
 	// C04-g = C10-f under this property's name: the position inside an extent follows the advancing cursor
